@@ -32,7 +32,9 @@ pub struct Found {
 }
 
 pub fn norm(s: &str) -> String {
-    s.chars().filter(|c| !c.is_whitespace()).collect()
+    // whitespace-insensitive; a trailing comma before a closing bracket (rustfmt's vertical layout) is not part of the text
+    let t: String = s.chars().filter(|c| !c.is_whitespace()).collect();
+    t.replace(",)", ")").replace(",>", ">")
 }
 
 fn walk(dir: &std::path::Path, out: &mut Vec<std::path::PathBuf>) {
